@@ -37,8 +37,8 @@ type W3Op struct {
 	B     int       `json:"b,omitempty"`
 	N     int       `json:"n,omitempty"`
 	Q     []float32 `json:"q,omitempty"`
-	DS    int       `json:"ds,omitempty"`  // dataset slot (0 = the default dataset)
-	Dim   int       `json:"dim,omitempty"` // override vector dimension (C11/C12)
+	DS    int       `json:"ds,omitempty"`     // dataset slot (0 = the default dataset)
+	Dim   int       `json:"dim,omitempty"`    // override vector dimension (C11/C12)
 	DimAt int       `json:"dim_at,omitempty"` // batches: only the DimAt-th item (1-based) gets the overridden dimension (0: all)
 	P     int       `json:"p,omitempty"`
 	R     int       `json:"r,omitempty"`
@@ -968,6 +968,9 @@ func runScenario(c *W3Case, prop string, out *Outcome, wantLog bool, before func
 		s := newSim(c.Cfg, out, wantLog)
 		defer func() {
 			out.SimSeconds = s.now().Seconds()
+			if s.deepYields > 0 {
+				out.Stat("deep_yields", int64(s.deepYields))
+			}
 			out.TraceHash = s.h
 			out.Log = s.log
 			out.Stat("driver_steps", int64(s.steps))
